@@ -518,7 +518,7 @@ func byteSplitScripts(each func(sc script)) {
 // ownership: every sequence of up to n complete control sequences (every dispatch path that
 // hands storage to the consumer), consumer retaining or handing back late
 var units = []string{"x", "\x1b[!p", "\x1b[?u", "\x1b[>1u", "\x1b[1;2A", "\x1b[ q", "\x1b[1 q", "\x1b(B", "\x1b#3", "\x1bP$q\x1b\\",
-	"\x1bP1$r\x1b\\", "\x1b]0;t\x07", "\x1b[1:2m", "\x1bOA", "\x1b[A"}
+	"\x1bP1$r\x1b\\", "\x1b]0;t\x07", "\x1b[1:2m", "\x1bOA", "\x1b[A", "\x1b]52;ab\x07", "\x1bPqAB\x1b\\", "\x1b_Gi=1\x1b\\", "\x1b_Gj=22\x1b\\"}
 
 func ownershipScripts(n int, each func(sc script)) {
 	for _, s := range stringsUpTo(n, units) {
@@ -666,7 +666,7 @@ func main() {
 	ex := r.Get("executions")
 	r.Finish(explore.Coverage{
 		States: -1, Transitions: r.Get("points"), Traces: ex, Evaluations: ex,
-		Rule: fmt.Sprintf("stateless exploration of thread schedules of the real ansi.Parser under the controlled scheduler (scheduling points: every channel operation, select, close, mutex operation, thread start, timer firing, reader wait). Breadth: every string of up to %d symbols over a 12-symbol alphabet, as one chunk and cut in two at every position with short / boundary / long arrival gaps, ending in EOF or a read error, all schedules without preemption (non-preemptive switches are free); byte-level chunkings of multi-byte input with <=1 preemption; ownership: every sequence of up to %d complete control sequences out of 15 (each dispatch path that hands storage to the consumer) with a consumer that retains everything or hands back one late, <=1 preemption. Depth: 14 input bodies x end kinds x consumer modes (hand back at once / retain everything / hand back one late) x Close from a second thread with a reader that returns afterwards, all schedules with <=%d deviations (preemption, or timer fired while a thread could run). Oracle per execution: no panic, no hang, no goroutine blocked at the end, exactly one EOF marker as last item, channel closed, WaitClose returns, retained sequences unchanged, item list equal to (prefix of, with Close) a list admitted by the reference automaton for the gap pattern. distinct = (script, bound) pairs", breadthN, r.Pick(3, 4), depthBound),
+		Rule: fmt.Sprintf("stateless exploration of thread schedules of the real ansi.Parser under the controlled scheduler (scheduling points: every channel operation, select, close, mutex operation, thread start, timer firing, reader wait). Breadth: every string of up to %d symbols over a 12-symbol alphabet, as one chunk and cut in two at every position with short / boundary / long arrival gaps, ending in EOF or a read error, all schedules without preemption (non-preemptive switches are free); byte-level chunkings of multi-byte input with <=1 preemption; ownership: every sequence of up to %d complete control sequences out of 19 (each dispatch path that hands storage to the consumer) with a consumer that retains everything or hands back one late, <=1 preemption. Depth: 14 input bodies x end kinds x consumer modes (hand back at once / retain everything / hand back one late) x Close from a second thread with a reader that returns afterwards, all schedules with <=%d deviations (preemption, or timer fired while a thread could run). Oracle per execution: no panic, no hang, no goroutine blocked at the end, exactly one EOF marker as last item, channel closed, WaitClose returns, retained sequences unchanged, item list equal to (prefix of, with Close) a list admitted by the reference automaton for the gap pattern. distinct = (script, bound) pairs", breadthN, r.Pick(3, 4), depthBound),
 		Exhaustive: r.Get("scripts_capped") == 0,
 		Bounds: map[string]any{"breadth_symbols": breadthN, "deviation_bound": depthBound, "scripts": r.Get("scripts"), "scripts_capped": r.Get("scripts_capped"),
 			"scripts_with_several_outcomes": r.Get("scripts_with_several_outcomes"), "step_limit": 4000},
